@@ -519,6 +519,64 @@ def gen_rep(rng, cell):
     raise ValueError(k)
 
 
+# ------------------------------------------------------------------------------------------ structurally distinct instances
+
+VAR_PARTNERS = ["Diag", "ConstantDiag", "Identity", "Dense"]
+VAR_BIN = [(op, pk, order) for op in ("mul", "add", "matmul", "sub") for pk in VAR_PARTNERS for order in (0, 1)]
+VAR_UNARY = ["diagonal", "mT", "jitter", "jitter_diagonal", "mT_diagonal", "mul_py_diagonal"]
+
+
+def var_cells(quick):
+    """per class a set of structurally distinct instances (c02_gen.VARIANTS: Block* / SumBatch over each child family, Masked with
+    unequal / equal masks, Interpolated with 2 / 3 weights per row, ConstantMul / Kronecker / Sum / AddedDiag / BatchRepeat / Matmul
+    over those) on both sides of * + @ - against the Diag family and Dense, and under .diagonal(), .mT, add_jitter"""
+    out = []
+    for vi, v in enumerate(g.VARIANTS):
+        if quick:
+            bins = [("mul", "Diag", 1), ("mul", VAR_PARTNERS[1 + vi % 2], 1), ("mul", VAR_PARTNERS[vi % 4], 0),
+                    VAR_BIN[(8 + vi * 5) % 32], VAR_BIN[(8 + vi * 7 + 3) % 32]]
+            uns = ["diagonal", "jitter_diagonal", VAR_UNARY[1 + vi % 2], VAR_UNARY[4 + vi % 2]]
+            bs = [[[], [2]][vi % 2]]
+        else:
+            bins, uns, bs = VAR_BIN, VAR_UNARY, [[], [2]]
+        for b in bs:
+            for x in dict.fromkeys(bins):
+                out.append(("var", v, "bin") + tuple(x) + (tuple(b),))
+            for u in uns:
+                out.append(("var", v, "un", u, tuple(b)))
+    return out
+
+
+def gen_var(rng, cell):
+    v, kind = cell[1], cell[2]
+    b = list(cell[-1])
+    e = g.variant(rng, v, b, N)
+    a = leaf(e)
+    bb = list(ob.shape_of(e)[:-2])
+    if kind == "un":
+        u = cell[3]
+        mT = lambda x: {"p": "transpose", "a": x, "d1": -1, "d2": -2}
+        if u == "diagonal":
+            return {"p": "diagonal", "a": a}
+        if u == "mT":
+            return mT(a)
+        if u == "jitter":
+            return {"p": "add_jitter", "a": a, "v": rng.choice([1, 2])}
+        if u == "jitter_diagonal":
+            return {"p": "diagonal", "a": {"p": "add_jitter", "a": a, "v": rng.choice([1, 2])}}
+        if u == "mT_diagonal":
+            return {"p": "diagonal", "a": mT(a)}
+        if u == "mul_py_diagonal":
+            return {"p": "diagonal", "a": {"p": "mul", "a": a, "b": {"p": "py", "v": rng.choice([4, -2])}}}
+        raise ValueError(u)
+    op, pk, order = cell[3], cell[4], cell[5]
+    if op == "mul" and pk != "Dense" and not (order == 1 and pk in DIAG_FAMILY):
+        raise OutOfDomain()             # X.mul(Diag) goes through root decompositions: PSD operands only (covered elsewhere)
+    ek = g.inst(rng, pk, bb, N)
+    x, y = (leaf(ek), a) if order else (a, leaf(ek))
+    return {"p": op, "a": x, "b": y}
+
+
 # ------------------------------------------------------------------------------------------ operands that carry pre-filled caches
 
 CACHE_FIRST = ["add_root", "add_lrroot", "radd_root", "alr2", "cat_rows"]
@@ -679,7 +737,7 @@ def gen_prog(rng, idx, depth):
 
 
 def all_cells(quick):
-    cells = pair_cells(quick) + scalar_cells(quick) + shape_cells(quick) + root_cells(quick) + comp_cells(quick) + bc2_cells(quick) + red_cells(quick) + rep_cells(quick) + cache_cells(quick)
+    cells = pair_cells(quick) + scalar_cells(quick) + shape_cells(quick) + root_cells(quick) + comp_cells(quick) + bc2_cells(quick) + red_cells(quick) + rep_cells(quick) + cache_cells(quick) + var_cells(quick)
     nprog = 240 if quick else 1500
     for i in range(nprog):
         cells.append(("prog", i, 2 + i % 3 if quick else 2 + i % 5))
@@ -705,6 +763,8 @@ def gen_cell(rng, cell):
         return gen_rep(rng, cell)
     if cell[0] == "cache":
         return gen_cache(rng, cell)
+    if cell[0] == "var":
+        return gen_var(rng, cell)
     return gen_prog(rng, cell[1], cell[2])
 
 
